@@ -111,6 +111,10 @@ def _sample_vector(outs):
 @check("C01")
 def c01(res):
     outs = _m1_common(res, "C01")
+    from . import traces
+
+    traces.classify_suite(res, "C01")
+    traces.classify_driver(res, "C01")
     res.rule = M1_RULE + "Distinct = vectors x class families x assertion settings; non-trivial = the call changes a link or a hook raises."
     res.distinct = res.replayed
     res.exhaustive = True
@@ -125,6 +129,10 @@ def c01(res):
 @check("C02")
 def c02(res):
     outs = _m1_common(res, "C02")
+    from . import traces
+
+    traces.classify_suite(res, "C02")
+    traces.classify_driver(res, "C02")
     res.rule = M1_RULE + "C02 is decided on the fault-free vectors (plan none): outcome = MustRefuse and post = IdealEffect, both defined independently of the interpreter and checked against it by TLC (Thm_C02)."
     res.distinct = res.replayed
     res.exhaustive = True
@@ -135,6 +143,10 @@ def c02(res):
 @check("C03")
 def c03(res):
     outs = _m1_common(res, "C03")
+    from . import traces
+
+    traces.classify_suite(res, "C03")
+    traces.classify_driver(res, "C03")
     res.rule = M1_RULE + "C03 is decided on every vector whose outcome is TreeError/LoopError/TypeError or whose raised exceptions all come from pre-hooks."
     res.distinct = res.replayed
     res.exhaustive = True
@@ -144,6 +156,9 @@ def c03(res):
 @check("C16")
 def c16(res):
     outs = _m1_common(res, "C16")
+    from . import traces
+
+    traces.classify_driver(res, "C16")
     res.rule = M1_RULE + "C16 compares the complete hook log (kind, node, argument, snapshot of the whole forest inside the hook, raised?) of every vector."
     res.distinct = res.replayed
     res.exhaustive = True
@@ -180,6 +195,10 @@ def _m2(res, prop, rule):
 
     outs = m2_query.run(prop, res.tier)
     m2_query.classify(outs, res, prop)
+    if prop in ("C04", "C05", "C06", "C14", "C15"):
+        from . import traces
+
+        traces.classify_driver(res, prop)
     res.rule = rule
     res.distinct = sum(o["vectors"] for o in outs)
     res.exhaustive = True
